@@ -473,6 +473,37 @@ class Interp:
             if short == "is_none":
                 return ("bool", bnot(a0[1]))
             return ("top",)
+        if cp.endswith("bool>::then") or cp.endswith("bool>::then_some"):
+            # `cond.then(|| v)` / `cond.then_some(v)`: Some(v) iff cond
+            c0 = args[0]
+            if c0[0] == "ref":
+                c0 = self.load(st, c0[1])
+            if c0 is None or c0[0] != "bool" or len(args) < 2:
+                return ("top",)
+            if c0[1] == 0:
+                return opt(0, None)
+            if short == "then_some":
+                return opt(c0[1], args[1])
+            clo = args[1]
+            cb = self.unit.body(clo[1]) if clo[0] == "closure" else None
+            if cb is None or depth >= self.max_depth:
+                return ("top",)
+            lent, ops = [], []
+            for ci, op in enumerate(clo[2]):
+                if isinstance(op, tuple) and op and op[0] == "ref" and op[1][0] == "L":
+                    nm = "$c%d_%d_%d" % (depth, ci, op[1][1])
+                    st["H"][nm] = st["L"].get(op[1][1])
+                    ops.append(("ref", ("H", nm, op[1][2])))
+                    lent.append((nm, op[1][1]))
+                else:
+                    ops.append(op)
+            res = self.run(cb, [("closure", clo[1], tuple(ops))], st["H"], depth + 1)
+            for nm, l in lent:
+                if nm in st["H"]:
+                    st["L"][l] = st["H"].pop(nm)
+            if res == "diverge":
+                return "diverge" if c0[1] == 1 else ("top",)
+            return opt(c0[1], res)
         if cp.endswith(("PartialEq>::eq", "PartialEq>::ne")) or cp in ("core::cmp::PartialEq::eq", "core::cmp::PartialEq::ne"):
             a = [self.load(st, x[1]) if x[0] == "ref" else x for x in args[:2]]
             if len(a) == 2 and a[0] is not None and a[1] is not None:
